@@ -190,6 +190,89 @@ fn truncated_utf16_32_input_is_undetected_not_an_error() {
 	assert!(bad.is_empty(), "{} violations, first: {:?}", bad.len(), &bad[..bad.len().min(3)]);
 }
 
+/// TOML output is nothing or exactly one document: a second document or input is refused even when
+/// the first one was an EMPTY table (zero bytes written) or was itself refused.
+#[test]
+fn toml_output_refuses_every_second_document() {
+	let mut bad = vec![];
+	for (first, from) in [("{}", Format::Json), ("--- {}\n", Format::Yaml), ("[1]", Format::Json), ("{\"a\":null}", Format::Json), ("{\"a\":1}", Format::Json)] {
+		let mut out = Vec::new();
+		let mut t = xt::Translator::new(&mut out, Format::Toml);
+		let r1 = t.translate_slice(first.as_bytes(), Some(from));
+		let r2 = t.translate_slice(b"{\"b\":2}", Some(Format::Json));
+		let r3 = t.translate_reader(&b"{\"c\":3}"[..], Some(Format::Json));
+		drop(t);
+		let text = String::from_utf8_lossy(&out).to_string();
+		if r2.is_ok() || r3.is_ok() || text.contains("b = 2") || text.contains("c = 3") {
+			bad.push(format!("after first document {first:?} (ok={}) a second document was accepted: output {text:?}", r1.is_ok()));
+		}
+	}
+	for doc in ["{} {\"b\":2}", "{\"a\":1}\n{\"b\":2}"] {
+		let mut out = Vec::new();
+		let r = xt::translate_slice(doc.as_bytes(), Some(Format::Json), Format::Toml, &mut out);
+		if r.is_ok() || String::from_utf8_lossy(&out).contains("b = 2") {
+			bad.push(format!("two documents in one input {doc:?} were accepted: {:?}", String::from_utf8_lossy(&out)));
+		}
+	}
+	for (doc, from) in [("[1,2]", Format::Json), ("7", Format::Json), ("{\"a\":{\"b\":[1,null]}}", Format::Json), ("a: ~\n", Format::Yaml)] {
+		let mut out = Vec::new();
+		let r = xt::translate_slice(doc.as_bytes(), Some(from), Format::Toml, &mut out);
+		if r.is_ok() || !out.is_empty() {
+			bad.push(format!("{doc:?} must be refused without output: ok={} output {:?}", r.is_ok(), String::from_utf8_lossy(&out)));
+		}
+	}
+	assert!(bad.is_empty(), "{} violations, first: {:?}", bad.len(), &bad[..bad.len().min(3)]);
+}
+
+/// A writer that accepts only short pieces receives exactly the fault-free output, for every target.
+#[test]
+fn short_writes_deliver_exactly_the_output() {
+	struct Short(Vec<u8>, usize);
+	impl Write for Short {
+		fn write(&mut self, b: &[u8]) -> io::Result<usize> {
+			let n = self.1.min(b.len());
+			self.0.extend_from_slice(&b[..n]);
+			Ok(n)
+		}
+		fn flush(&mut self) -> io::Result<()> {
+			Ok(())
+		}
+	}
+	let mut bad = vec![];
+	let input = br#"{"a":[1,{"b":"x"}]} [2] "s""#;
+	for to in [Format::Json, Format::Yaml, Format::Msgpack] {
+		let mut full = Vec::new();
+		xt::translate_slice(input, Some(Format::Json), to, &mut full).unwrap();
+		for k in [1usize, 2, 3, 7] {
+			for reader in [false, true] {
+				let mut w = Short(vec![], k);
+				let r = if reader { xt::translate_reader(&input[..], Some(Format::Json), to, &mut w) } else { xt::translate_slice(input, Some(Format::Json), to, &mut w) };
+				if r.is_err() || w.0 != full {
+					bad.push(format!("{to}: writer accepting {k} byte(s) per call got {:?}, expected {:?}", String::from_utf8_lossy(&w.0), String::from_utf8_lossy(&full)));
+				}
+			}
+		}
+	}
+	assert!(bad.is_empty(), "{} violations, first: {:?}", bad.len(), &bad[..bad.len().min(3)]);
+}
+
+/// A detected format behaves exactly as if it had been named.
+#[test]
+fn detected_format_equals_named_format() {
+	let mut bad = vec![];
+	for (doc, fmt) in [(&b"{\"a\": [1, 2]}"[..], Format::Json), (&b"a:\n- 1\n- 2\n"[..], Format::Yaml), (&b"a = [1, 2]\n"[..], Format::Toml), (&[0x81u8, 0xa1, 0x61, 0x92, 1, 2][..], Format::Msgpack)] {
+		for to in [Format::Json, Format::Yaml, Format::Msgpack, Format::Toml] {
+			let (mut a, mut b) = (Vec::new(), Vec::new());
+			let ra = xt::translate_slice(doc, None, to, &mut a).map_err(|e| e.to_string());
+			let rb = xt::translate_slice(doc, Some(fmt), to, &mut b).map_err(|e| e.to_string());
+			if ra != rb || a != b {
+				bad.push(format!("{fmt} -> {to}: detected {ra:?} {:?} vs named {rb:?} {:?}", String::from_utf8_lossy(&a), String::from_utf8_lossy(&b)));
+			}
+		}
+	}
+	assert!(bad.is_empty(), "{} violations, first: {:?}", bad.len(), &bad[..bad.len().min(3)]);
+}
+
 #[test]
 fn syntax_error_at_every_position_keeps_the_parser_message() {
 	let mut bad = vec![];
